@@ -174,3 +174,36 @@ func verifHarnessC20Parse() {
 	}
 	reach("end")
 }
+
+type verifJSONT struct {
+	X string
+	N int
+}
+
+// A json-tagged field holds the decoding of the WHOLE secret: a value that is not exactly one JSON document is an error.
+func verifHarnessC20JSONField() {
+	verifEnvReset()
+	client := &verifClient{}
+	s := &Store{client: client, logf: verifLogf, timeNow: verifTimeNow}
+	s.active.m = map[string]*cachedSecret{}
+	s.active.f = map[string]Secret{}
+	s.active.w = map[string][]watcher{}
+	val := nondetSeq("val")
+	s.active.m["pfx/j"] = &cachedSecret{Secret: &api.SecretValue{Value: val, Version: 1}}
+	var t struct {
+		J    verifJSONT
+		Skip int
+	}
+	t.Skip = 7
+	f := &Fields{prefix: "pfx", fields: []fieldInfo{{fieldName: "J", secretName: "j", value: reflect.ValueOf(&t.J), isJSON: true, vtype: reflect.TypeOf(t.J)}}}
+	err := f.Apply(verifBackground(), s)
+	cls := jsonClass(val)
+	if err == nil {
+		assert("accepted-only-if-the-whole-secret-is-one-json-document", cls == 0)
+	}
+	if cls != 0 {
+		assert("ill-formed-secret-is-reported", err != nil)
+	}
+	assert("untagged-untouched", t.Skip == 7)
+	reach("end")
+}
